@@ -119,13 +119,16 @@ def evaluate(ctx, results, tag):
     if "exc" in r:
       continue
     tol, tau = tol_of(r)
-    if r["case"]["impl"] == "ds_opt":
-      for t in states_terms(r, tol, tau):
-        terms.append(t)
-        idx.append(i)
-    else:
-      terms.append(hist_term(r, tol, tau))
-      idx.append(i)
+    try:
+      if r["case"]["impl"] == "ds_opt":
+        ts = list(states_terms(r, tol, tau))
+      else:
+        ts = [hist_term(r, tol, tau)]
+    except ValueError as e:      # NaN / Inf has no dyadic form: reported with the case as failing input
+      r["exc"] = "non-finite value in the implementation's output for finite input (%s)" % e
+      continue
+    terms += ts
+    idx += [i] * len(ts)
   vals = ctx.coq_eval(tag, HEADER, terms, per_shard=8, timeout=1800)
   for i, v in zip(idx, vals):
     code = int(v.replace("%Z", "").replace("(", "").replace(")", ""))
